@@ -23,11 +23,22 @@ written through), cells no coercion can convert (the only way to reach
 coerce_value), MultiIndex schemas with coerce on the MultiIndex / on every
 level / on some levels only, and a dataframe-wide dtype (components are
 validated with dtype / coerce temporarily overridden).
+
+Every fault point is executed twice: with an exception made the usual way (one
+message argument) and with another *shape* of exception object (c06_faults.
+SHAPES / NATURAL_SHAPES: no argument at all - bare assert, raise Class,
+keyword-only constructor -, several or non-string arguments, chained, coming
+out of a nested validate ...).  The handlers that turn a raising check into a
+failed check describe the user's exception (class name, first argument); they
+exist once per place a check can live (pandas Column / SeriesSchema + Index /
+DataFrameSchema, polars Column / DataFrameSchema), so the evaluations are
+counted per place (fired_meta["where"]).
 """
 from __future__ import annotations
 
 import json
 import traceback
+import warnings
 
 from .. import c06_faults as CF, c06_gen as G6
 from .. import fingerprint as F, snap as S
@@ -64,13 +75,36 @@ def new_run():
         "data: conforming, coercible text, or cells no coercion converts; "
         "index: none / Index / MultiIndex of 2-3 levels with coerce on the "
         "MultiIndex, on every level, on some levels or nowhere; optional "
-        "dataframe-wide dtype; 9 exception classes are injected. distinct = canonical hash of the descriptor (+k); "
+        "dataframe-wide dtype; custom checks also carry raise_warning=True / "
+        "groups= (present and absent group keys); every fault point is run "
+        "twice: (1) one of 9 exception classes, drawn per case, made with one "
+        "message argument; (2) one of 16 classes and one of 19 other shapes "
+        "of exception object, drawn per fault point: no argument at all "
+        "(Class(), raise Class, bare assert, keyword-only constructor), "
+        "several arguments, a non-string first argument (int, 0, None, tuple, "
+        "empty tuple, bytes, another exception), empty message, message with "
+        "quotes / braces / % / newlines / non-ASCII, raise .. from .., raised "
+        "inside an except block, or the SchemaError / SchemaErrors of a "
+        "validate call nested in the callback. distinct = canonical hash of "
+        "the descriptor (+k, +class and shape for the second run); "
         "non-trivial = A: the call did not simply accept a conforming frame "
         "(an error path or a hostile transformation was exercised); B: the "
         "fault was actually fired inside validate",
         ["injected exceptions derive from Exception (plain, or with a "
          "ValueError / TypeError / KeyError / AttributeError / RuntimeError / "
-         "ZeroDivisionError / IndexError / NotImplementedError mix-in)",
+         "ZeroDivisionError / IndexError / NotImplementedError mix-in; second "
+         "run also AssertionError / LookupError / OverflowError / OSError / "
+         "UnicodeError / ImportError / EOFError); StopIteration and "
+         "exceptions whose __str__ / __repr__ raise are not injected",
+         "an exception of a validate call nested in a *check* must come back "
+         "as a failed check (CHECK_ERROR or DATAFRAME_CHECK) or propagate as "
+         "it is (counted, not judged); nested in any other callback the "
+         "channel is not judged (undecided:nested-validate-error-from-<kind>), "
+         "the state afterwards still is",
+         "a raising check declared with raise_warning=True may be reported "
+         "as CHECK_ERROR (what pandera does) or, when validate returns, by a "
+         "SchemaWarning (counted as undecided); returning without either is "
+         "a swallowed check",
          "caller's data is compared by value (pvm.snap) only for "
          "inplace=False; in-place editing callbacks only write values of the "
          "container's own dtype, so no edit can fail by itself",
@@ -147,6 +181,10 @@ def execute(d, faults):
         snap0 = None
     depth = d["call"].get("depth")
     o.kind, o.exc, o.result, o.reasons = "ok", None, None, []
+    o.schema_warnings = 0
+    caught = warnings.catch_warnings(record=True)
+    wlog = caught.__enter__()
+    warnings.simplefilter("always")
     try:
         if depth:
             with cfg.config_context(
@@ -169,6 +207,9 @@ def execute(d, faults):
         o.kind, o.exc = "exc", e
     finally:
         CF.CURRENT[0] = None
+        caught.__exit__(None, None, None)
+        o.schema_warnings = sum(
+            1 for w in wlog if issubclass(w.category, pe.SchemaWarning))
     o.fp_diff = None
     try:
         o.fp_diff = all_name_diffs(fp0, F.fp(schema))
@@ -248,6 +289,7 @@ K_COERCE_VALUE = "coerce-value-exception-escapes-coercion-failure-cases"
 K_INDEX_COERCE = "index-component-coerce-override-written-into-schema"
 K_COMPONENT_OVERRIDE = "column-component-dtype-or-coerce-override-written-into-schema"
 K_SHARED_BLOCKS = "pandas-object-validated-on-copy-sharing-memory-with-callers-data"
+K_HANDLER = "check-error-handler-fails-on-the-shape-of-the-users-exception"
 
 
 def _fields(d):
@@ -598,6 +640,12 @@ def channel(run, d, o, part, injected=None, inj_kind=None, extra=None):
                 mech = K_COERCE_VALUE
     else:
         kind = f"internal-exception-leaked:{site(e)}"
+        if (mech is None and injected is not None
+                and e is not injected
+                and frames_of(e)[-1:] and frames_of(e)[-1].endswith(":run_checks")):
+            # the handler that turns a raising check into a failed check
+            # raised itself while describing the user's exception object
+            mech = K_HANDLER
     run.violation(kind, w, mech)
     return False
 
@@ -706,80 +754,181 @@ def part_b(run, ctx, i):
     run.count("B:cases_fully_enumerated" if complete else "B:cases_sampled")
     run.count("B:callback_invocations_counted", n)
     for k in pts:
-        f = CF.Faults(target=k, base=base)
-        o = execute(d, f)
-        fired = f.fired is not None
-        run.case(canon_hash([d, k, base]), fired,
-                 sample={"part": "B", "backend": backend, "tags": d["tags"],
-                         "call": d["call"], "N": n, "k": k,
-                         "callback": f.fired[0] if fired else None,
-                         "fault_base": base, "outcome": o.kind,
-                         "reasons": o.reasons[:4]} if k == pts[0] else None)
-        if not fired:
-            run.count("B:fault_not_reached")
-            continue
-        kind, exc = f.fired
-        if k <= len(f0.log) and f0.log[k - 1] != kind:
-            run.count("undecided:callback-order-not-reproducible")
-            continue
+        # every fault point twice: once with the exception class drawn for the
+        # case, made the way fault injectors make exceptions (one message
+        # argument), once with another *shape* of exception object (no
+        # argument at all, several / non-string arguments, keyword-only
+        # constructor, chained, raised by a bare assert, by a nested
+        # validate ...) of a class drawn per fault point
+        fault_run(run, d, f0, n, k, base, "message", backend,
+                  with_sample=k == pts[0])
+        shape = rng.choice(SHAPE_DRAW)
+        base2 = rng.choice(list(CF.ALL_BASES))
+        fault_run(run, d, f0, n, k, base2, shape, backend,
+                  with_sample=k == pts[-1])
+
+
+# the second run of a fault point: every shape but "message"; the shapes
+# without any argument are what python code raises most often without thinking
+# (bare assert / raise Class), so they are drawn three times as often
+SHAPE_DRAW = [s for s in CF.ALL_SHAPES if s != "message"] \
+    + 2 * list(CF.ARGLESS_SHAPES)
+
+
+def shape_class(shape):
+    if shape in CF.ARGLESS_SHAPES:
+        return "argless"
+    if shape in CF.NESTED_SHAPES:
+        return "nested-validate"
+    if shape in ("message", "empty_message", "markup_message"):
+        return "one-str-arg"
+    if shape in ("chained", "in_handler"):
+        return "chained"
+    return "other-args"
+
+
+def fault_run(run, d, f0, n, k, base, shape, backend, with_sample=False):
+    f = CF.Faults(target=k, base=base, shape=shape, backend=backend)
+    o = execute(d, f)
+    fired = f.fired is not None
+    first = shape == "message"
+    run.case(canon_hash([d, k, base] if first else [d, k, base, shape]), fired,
+             sample={"part": "B", "backend": backend, "tags": d["tags"],
+                     "call": d["call"], "N": n, "k": k,
+                     "callback": f.fired[0] if fired else None,
+                     "fault_base": base, "fault_shape": shape,
+                     "raised": repr(f.fired[1])[:120] if fired else None,
+                     "outcome": o.kind,
+                     "reasons": o.reasons[:4]} if with_sample else None)
+    if not fired:
+        run.count("B:fault_not_reached")
+        return
+    kind, exc = f.fired
+    if k <= len(f0.log) and f0.log[k - 1] != kind:
+        run.count("undecided:callback-order-not-reproducible")
+        return
+    if first:
         run.count("fault_points_enumerated")
         run.count(f"fault_points:{kind}")
         run.count(f"fault_points:{backend}")
         run.count(f"fault_base:{base}")
-        run.count(f"fault_outcome:{kind}:{o.kind}")
-        if kind in CF.OTHER_KINDS:
-            run.count(f"fault_outcome:{backend}:{kind}:{o.kind}")
-        extra = {"k": k, "N": n, "callback": kind, "fault_base": base}
+    else:
+        run.count("fault_points_second_shape")
+        run.count(f"fault_shape:{shape}")
+        run.count(f"fault_shape_base:{base}")
+        run.count(f"fault_shape:{shape_class(shape)}:{kind}")
+        run.count(f"fault_shape:{shape_class(shape)}:{backend}")
+        if not exc.args:
+            run.count(f"fault_without_args:{kind}")
+            run.count(f"fault_without_args:{backend}")
+    sfx = "" if first else ":second-shape"
+    run.count(f"fault_outcome{sfx}:{kind}:{o.kind}")
+    if kind in CF.OTHER_KINDS:
+        run.count(f"fault_outcome{sfx}:{backend}:{kind}:{o.kind}")
+    extra = {"k": k, "N": n, "callback": kind, "fault_base": base,
+             "fault_shape": shape, "raised": repr(exc)[:200],
+             "raised_args": repr(exc.args)[:120]}
+    nested = shape in CF.NESTED_SHAPES
+    if nested and kind not in CF.CHECK_KINDS:
+        # a pandera error (with failure cases of its own) coming out of a
+        # parser / groupby function / custom DataType method: pandera has
+        # handlers for its own exception classes around these calls and the
+        # statement only speaks about *checks* that raise -> the channel is
+        # not judged here, the state afterwards still is
+        run.count(f"undecided:nested-validate-error-from-{kind}")
+        run.count(f"undecided:nested-validate-error-from-non-check:{o.kind}")
+        in_channel = False
+    else:
         in_channel = channel(run, d, o, "B", injected=exc, inj_kind=kind,
                              extra=extra)
-        if in_channel and kind in CF.CHECK_KINDS:
-            run.count("check_fault_evaluated")
-            if o.kind == "SchemaErrors":
-                if "CHECK_ERROR" in o.reasons:
-                    run.count("check_fault_reported_as_CHECK_ERROR")
-                else:
-                    run.violation("raising-check-not-reported-as-failed-check",
-                                  witness(d, o) | extra, None)
-            elif o.kind == "SchemaError":
-                if o.reasons == ["CHECK_ERROR"]:
-                    run.count("check_fault_reported_as_CHECK_ERROR")
-                else:
-                    # eager mode raises the first failure of the component
-                    run.count("undecided:eager-raised-an-earlier-failure")
-            elif o.kind == "ok":
-                if any_drop(d):
-                    run.count("undecided:drop_invalid_rows-raising-check-returned")
-                else:
-                    run.violation("raising-check-swallowed",
-                                  witness(d, o) | extra, None)
+    where = f.fired_meta.get("where")
+    if where and d["call"].get("component") is not None:
+        where = "standalone-" + where
+    warn_only = bool(f.fired_meta.get("raise_warning"))
+    if not first and not exc.args and kind in CF.CHECK_KINDS:
+        run.count(f"fault_without_args:check@{where}:{backend}")
+    if in_channel and kind in CF.CHECK_KINDS:
+        run.count("check_fault_evaluated")
+        run.count(f"check_fault_evaluated@{where}:{backend}")
+        if not first:
+            run.count("check_fault_evaluated:" + shape_class(shape))
+            run.count(f"check_fault_evaluated:second-shape@{where}:{backend}")
+        if warn_only:
+            # Check(raise_warning=True): a failed check is reported by a
+            # SchemaWarning instead of an exception; whether that also holds
+            # for a check that raises is not documented -> both accepted
+            run.count("check_fault_evaluated:raise_warning-check")
+        # a pandera error coming out of a validate call nested in the check
+        # is also reported as an (ordinary) failed check by some backends
+        failed_check = ("CHECK_ERROR", "DATAFRAME_CHECK") if nested \
+            else ("CHECK_ERROR",)
+        if o.kind == "SchemaErrors":
+            if any(r in o.reasons for r in failed_check):
+                run.count("check_fault_reported_as_CHECK_ERROR")
+                if not first:
+                    run.count("check_fault_reported_as_CHECK_ERROR:"
+                              + shape_class(shape))
+            elif nested and o.exc is exc:
+                # the SchemaErrors of the nested lazy validate itself
+                run.count("undecided:nested-validate-error-propagated-as-is")
             else:
-                run.count("undecided:check-fault-usage-error")
-        elif in_channel and kind in CF.REPORTED_KINDS:
-            # the fault hit the value-by-value search for coercion failure
-            # cases: in the channel it can only be a reported coercion error
-            run.count(f"reported_fault_evaluated:{kind}")
-            if "DATATYPE_COERCION" in o.reasons:
-                run.count(f"reported_fault:{kind}:DATATYPE_COERCION")
-            elif o.kind == "ok":
-                run.count("undecided:coerce-value-fault-and-validate-returned")
+                run.violation("raising-check-not-reported-as-failed-check",
+                              witness(d, o) | extra, None)
+        elif o.kind == "SchemaError":
+            if len(o.reasons) == 1 and o.reasons[0] in failed_check \
+                    and o.exc is not exc:
+                run.count("check_fault_reported_as_CHECK_ERROR")
+                if not first:
+                    run.count("check_fault_reported_as_CHECK_ERROR:"
+                              + shape_class(shape))
+            elif o.exc is exc:
+                run.count("undecided:nested-validate-error-propagated-as-is")
             else:
-                run.count("undecided:coerce-value-fault-other-reason-first")
-        elif in_channel:
-            run.count("other_fault_evaluated")
-            if o.kind == "ok":
-                run.count("undecided:non-check-fault-swallowed")
-        # state: which of the temporarily modified / shared things were in play
-        if f.mutations and o.is_frame and not o.kw.get("inplace"):
-            run.count("state_evaluated:B:after-in-place-edit-by-callback")
-            for mk in f.mutated_by:
-                run.count(f"state_evaluated:B:after-in-place-edit:{mk}")
-            run.count("state_evaluated:B:after-in-place-edit:"
-                      + d["spec"]["kind"])
-        for t in d["tags"]:
-            if t.startswith(("multiindex", "frame-dtype", "uncoercible",
-                             "standalone-column")):
-                run.count("state_evaluated:B:" + t)
-        state(run, d, o, "B", extra, mutations=f.mutations)
+                # eager mode raises the first failure of the component
+                run.count("undecided:eager-raised-an-earlier-failure")
+        elif o.kind == "ok":
+            if any_drop(d):
+                run.count("undecided:drop_invalid_rows-raising-check-returned")
+            elif warn_only and o.schema_warnings:
+                # (a SchemaWarning was emitted during the call; it is not
+                # attributed to this check)
+                run.count("undecided:raise_warning-check-raised-and-validate-"
+                          "returned-with-a-SchemaWarning")
+            else:
+                run.violation("raising-check-swallowed",
+                              witness(d, o) | extra, None)
+        else:
+            run.count("undecided:check-fault-usage-error")
+    elif in_channel and kind in CF.REPORTED_KINDS:
+        # the fault hit the value-by-value search for coercion failure
+        # cases: in the channel it can only be a reported coercion error
+        run.count(f"reported_fault_evaluated:{kind}")
+        if not first:
+            run.count(f"reported_fault_evaluated:{kind}:second-shape")
+        if "DATATYPE_COERCION" in o.reasons:
+            run.count(f"reported_fault:{kind}:DATATYPE_COERCION")
+        elif o.kind == "ok":
+            run.count("undecided:coerce-value-fault-and-validate-returned")
+        else:
+            run.count("undecided:coerce-value-fault-other-reason-first")
+    elif in_channel:
+        run.count("other_fault_evaluated")
+        if not first:
+            run.count("other_fault_evaluated:second-shape")
+        if o.kind == "ok":
+            run.count("undecided:non-check-fault-swallowed")
+    # state: which of the temporarily modified / shared things were in play
+    if f.mutations and o.is_frame and not o.kw.get("inplace"):
+        run.count("state_evaluated:B:after-in-place-edit-by-callback")
+        for mk in f.mutated_by:
+            run.count(f"state_evaluated:B:after-in-place-edit:{mk}")
+        run.count("state_evaluated:B:after-in-place-edit:"
+                  + d["spec"]["kind"])
+    for t in d["tags"]:
+        if t.startswith(("multiindex", "frame-dtype", "uncoercible",
+                         "standalone-column")):
+            run.count("state_evaluated:B:" + t)
+    state(run, d, o, "B", extra, mutations=f.mutations)
 
 
 # ------------------------------------------------------------------ driver
@@ -844,7 +993,52 @@ QUICK_FLOORS = {
     "state_evaluated:B:frame-dtype": 50,
     # Column(...).validate(dataframe): a component used as a schema
     "state_evaluated:B:standalone-column": 22,
+    # every fault point a second time with another shape of exception object
+    "fault_points_second_shape": 830,
+    "other_fault_evaluated:second-shape": 260,
+    "reported_fault_evaluated:dtype_coerce_value:second-shape": 26,
+    "check_fault_evaluated:argless": 210,
+    "check_fault_reported_as_CHECK_ERROR:argless": 190,
+    "check_fault_evaluated:other-args": 150,
+    "check_fault_reported_as_CHECK_ERROR:other-args": 130,
+    "check_fault_evaluated:one-str-arg": 33,
+    "check_fault_evaluated:chained": 37,
+    "check_fault_evaluated:nested-validate": 37,
+    "check_fault_reported_as_CHECK_ERROR:nested-validate": 33,
+    "check_fault_evaluated:raise_warning-check": 90,
+    "fault_shape:argless:pandas": 260, "fault_shape:argless:polars": 105,
+    # exceptions without any argument, per callback kind ...
+    "fault_without_args:check_vec": 63, "fault_without_args:check_elem": 95,
+    "fault_without_args:check_groupby": 9, "fault_without_args:check_frame": 21,
+    "fault_without_args:check_frame_row": 15, "fault_without_args:groupby_fn": 6,
+    "fault_without_args:dtype_coerce": 28,
+    "fault_without_args:dtype_coerce_value": 13,
+    # ... and per place of the raising check (each has its own handler)
+    "fault_without_args:check@column:pandas": 48,
+    "fault_without_args:check@column:polars": 54,
+    "fault_without_args:check@regex-column:pandas": 10,
+    "fault_without_args:check@regex-column:polars": 8,
+    "fault_without_args:check@frame:pandas": 23,
+    "fault_without_args:check@frame:polars": 12,
+    "fault_without_args:check@index:pandas": 11,
+    "fault_without_args:check@multiindex-level:pandas": 14,
+    "fault_without_args:check@series:pandas": 4,
+    "fault_without_args:check@standalone-column:pandas": 2,
+    "check_fault_evaluated:second-shape@column:pandas": 110,
+    "check_fault_evaluated:second-shape@column:polars": 120,
+    "check_fault_evaluated:second-shape@regex-column:pandas": 23,
+    "check_fault_evaluated:second-shape@regex-column:polars": 21,
+    "check_fault_evaluated:second-shape@frame:pandas": 60,
+    "check_fault_evaluated:second-shape@frame:polars": 26,
+    "check_fault_evaluated:second-shape@index:pandas": 26,
+    "check_fault_evaluated:second-shape@multiindex-level:pandas": 32,
+    "check_fault_evaluated:second-shape@series:pandas": 11,
+    "check_fault_evaluated:second-shape@standalone-column:pandas": 5,
 }
+# every shape of exception object has to be injected (quick: >= 100 each)
+QUICK_FLOORS.update({f"fault_shape:{s}": (85 if s in CF.ARGLESS_SHAPES else 25)
+                     for s in CF.ALL_SHAPES if s != "message"})
+QUICK_FLOORS.update({f"fault_shape_base:{b}": 44 for b in CF.ALL_BASES})
 
 
 def finalize(run, ctx):
@@ -865,7 +1059,9 @@ def replay(path):
     d = w["descriptor"]
     r = Run(PID, "fault_enumeration", "replay")
     if "k" in w:
-        f_ = CF.Faults(target=w["k"], base=w.get("fault_base", "Exception"))
+        f_ = CF.Faults(target=w["k"], base=w.get("fault_base", "Exception"),
+                       shape=w.get("fault_shape", "message"),
+                       backend=d["backend"])
         o = execute(d, f_)
         exc, kind = (f_.fired[1], f_.fired[0]) if f_.fired else (None, None)
         if channel(r, d, o, "B", injected=exc, inj_kind=kind):
